@@ -48,6 +48,7 @@ package codec
 //@   safe
 //@   ensures [header] len(result) == 3 + len(f.buffer) && result[0] == byte(f.frameType)
 //@   ensures [size-field] len(f.buffer) <= 65535 ==> int(result[1])*256 + int(result[2]) == len(f.buffer)
+//@   ensures [result-owned-by-caller] fresh(result)
 
 //@ func (*Decoder).nextFrame [C19]
 //@   requires c != nil && c.r != nil
@@ -70,3 +71,17 @@ package codec
 // every decoder that returns a node returns one whenever it reports no error
 //@ forall-funcs ^\(\*Decoder\)\.decode([A-NP-Z]\w*)?$ [C19]
 //@   ensures [node-or-error] err == nil ==> nonnil(result)
+
+// The byte slices handed out by the encoder belong to the caller: they are freshly allocated (in
+// particular they do not alias a buffer that went back to the encoder's sync.Pool and will be
+// overwritten by the next encode call).
+// (which node kinds encode to a frame is not under contract: a frame is assumed whenever no error is reported)
+//@ func (*Encoder).encode [C19]
+//@   assume-ensures err == nil ==> result != nil
+
+//@ func (*Encoder).Encodes [C19]
+//@   requires c != nil
+//@   ensures [result-owned-by-caller C19] err == nil ==> result == nil || fresh(result)
+//@ func (*Encoder).Encode [C19]
+//@   requires c != nil
+//@   ensures [result-owned-by-caller C19] err == nil ==> result == nil || fresh(result)
